@@ -24,6 +24,18 @@ func (w *scaleWorld) Begin() {
 	w.fresh = map[int]*mocker.Builder{}
 }
 
+// maskIdx: the 1-based indices at which a membership mask (sequence of booleans) is true
+func maskIdx(v interface{}) []int {
+	l, _ := v.([]interface{})
+	var out []int
+	for i, x := range l {
+		if b, _ := x.(bool); b {
+			out = append(out, i+1)
+		}
+	}
+	return out
+}
+
 func scaleMock(b *mocker.Builder, i int, kind string, id int) {
 	f := fn.Scale[i-1]
 	if kind == "apply" {
@@ -38,24 +50,24 @@ func (w *scaleWorld) Do(st Step) string {
 		id := st.Int("id")
 		switch st.Str("op") {
 		case "MockShared":
-			for _, i := range ints(st["is"]) {
+			for _, i := range maskIdx(st["is"]) {
 				scaleMock(w.shared, i, st.Str("kind"), id)
 			}
 		case "MockFresh":
-			for _, i := range ints(st["is"]) {
+			for _, i := range maskIdx(st["is"]) {
 				if w.fresh[i] == nil {
 					w.fresh[i] = mocker.Create()
 				}
 				scaleMock(w.fresh[i], i, st.Str("kind"), id)
 			}
 		case "CancelShared":
-			for _, i := range ints(st["is"]) {
+			for _, i := range maskIdx(st["is"]) {
 				w.shared.Func(fn.Scale[i-1]).Cancel()
 			}
 		case "ResetShared":
 			w.shared.Reset()
 		case "ResetFresh":
-			for _, i := range ints(st["is"]) {
+			for _, i := range maskIdx(st["is"]) {
 				w.fresh[i].Reset()
 			}
 		case "CondStub":
